@@ -15,3 +15,4 @@ import Spade.Properties.C04
 #print axioms Spade.C04_model_region_keeps_flags
 #print axioms Spade.C04_model_remove_constraint_flags
 #print axioms Spade.C04_model_remove_constraint_links
+#print axioms Spade.C04_model_remove_constraint_valid
